@@ -53,6 +53,17 @@ func SqlCount(db *sql.DB, table string, col string, val string) Z { return Z{} }
 func SqlSnapshot(db *sql.DB) int               { return 0 }
 func SqlSame(db *sql.DB, a, b int) bool        { return false }
 func TempDir() string                          { return "" }
+func SqlRowPresent(db *sql.DB, table string, i int) bool           { return false }
+func SqlRowStr(db *sql.DB, table string, i int, col string) string { return "" }
+func SqlRowU64(db *sql.DB, table string, i int, col string) uint64 { return 0 }
+
+// Pick*: select one of the options by a (symbolic) index without forking; idx must be < len(options)
+func PickStr(idx uint64, options ...string) string                                { return "" }
+func PickU64(idx uint64, options ...uint64) uint64                                { return 0 }
+func PickPriv(idx uint64, options ...*secp256k1.PrivateKey) *secp256k1.PrivateKey { return nil }
+
+// UF64 is an uninterpreted function uint64 -> uint64 (same argument => same result)
+func UF64(name string, x uint64) uint64 { return 0 }
 
 // threads / crash points
 func Go(f func())        {}
